@@ -2,5 +2,7 @@ import Rtamt.Value
 import Rtamt.Syntax
 import Rtamt.Discrete.Rho
 import Rtamt.Discrete.Offline
+import Rtamt.Discrete.Online
+import Rtamt.Discrete.Pastify
 import Rtamt.Proto
 import Rtamt.Generated
